@@ -152,7 +152,7 @@ def run(ctx: Ctx) -> None:
                           setup=[("client", "c1", [("single", "i1"), ("single", "i2")])],
                           actors=[("poller", "r1", 2), ("reader", "c1", ["i1", "i2"], {"rounds": 2})])
         jobs.append({"scn": cc.scn_dict(scn), "mode": "dfs", "preemptions": pre,
-                     "max_exec": 400 if ctx.quick else 20000})
+                     "max_exec": 400 if ctx.quick else 2500})
         jobs.append({"scn": cc.scn_dict(scn), "mode": "seeds", "seeds": [ctx.seed + k for k in range(10 if ctx.quick else 200)]})
     rng = random.Random(ctx.seed)
     nseeds = 1 if ctx.quick else 6
